@@ -212,7 +212,7 @@ def kani_run(scratch, filters, jobs=None, harness_timeout=600, total_timeout=Non
 def parse_playback_tests(out):
     """Parse `--concrete-playback=print` blocks -> list of dict(harness, kind, message, name, text)."""
     tests = []
-    for m in re.finditer(r"```\n/// Test generated for harness `([^`]+)`\s*\n///\s*\n/// Check for `(\w+)`: (.*?)\n\s*\n#\[test\]\nfn (\w+)\(\) \{\n(.*?)\n\}\n```", out, re.S):
+    for m in re.finditer(r"```\n/// Test generated for harness `([^`]+)`\s*\n///\s*\n/// Check for `(\w+)`: (.*?)\n(?:///[^\n]*\n|[ \t]*\n)*#\[test\]\nfn (\w+)\(\) \{\n(.*?)\n\}\n```", out, re.S):
         msg = m.group(3).strip()
         while len(msg) >= 2 and msg[0] == '"' and msg[-1] == '"':
             msg = msg[1:-1]
@@ -221,7 +221,7 @@ def parse_playback_tests(out):
     return tests
 
 
-def kani_replay_batch(scratch, failures, timeout=600):
+def kani_replay_batch(scratch, failures, timeout=1200):
     """failures: [(full harness name, failed-check message)]. For each, obtain Kani's concrete counterexample,
     write it as a #[test] into the harness module of the scratch copy and run all of them natively in one
     `cargo kani playback` (real crate code; stubs are NOT applied). Returns {(name,msg): dict(reproduced, text, note)}."""
@@ -234,9 +234,14 @@ def kani_replay_batch(scratch, failures, timeout=600):
     if scratch.features is not None:
         cmd += ['--no-default-features', '--features', scratch.features]
     full = sorted(set(n for n, _ in failures))
-    for n in full:
-        cmd += ['--harness', n]
-    rc, out, dt = sh(cmd, cwd=scratch.dir, timeout=timeout)
+    # one Kani invocation per failing harness, in parallel (each regenerates the counterexample as a unit test)
+    from concurrent.futures import ThreadPoolExecutor
+
+    def gen(n):
+        return sh(cmd + ['--harness', n], cwd=scratch.dir, timeout=timeout)
+    with ThreadPoolExecutor(max_workers=min(8, len(full))) as ex:
+        outs = list(ex.map(gen, full))
+    out = '\n'.join(o[1] for o in outs)
     tests = parse_playback_tests(out)
     chosen = {}
     for (n, msg) in failures:
@@ -455,7 +460,21 @@ def declared_harnesses(prefixes, features=None):
     return names
 
 
-def run_kani_set(ctx, filters, bound, harness_timeout=300, features=None, jobs=None, expect_min=None, expected_fail=None, exact=False):
+def _fb(name):
+    def call(ctx, what):
+        from . import native
+        return getattr(native, name)(ctx, what)
+    return call
+
+
+DEFAULT_FALLBACKS = {
+    r'C0[19]:arith:(feeding|ci|trait)|c01_arith_feeding|C09:arith:(extend|from_iter)': _fb('confirm_feeding'),
+    r'C06:(interval_bounds|t_value|z_value|quantile)': _fb('confirm_critical_value'),
+    r'history-dependent|quantile_per_call|history_independent': _fb('confirm_history'),
+}
+
+
+def run_kani_set(ctx, filters, bound, harness_timeout=300, features=None, jobs=None, expect_min=None, expected_fail=None, exact=False, fallback=None):
     """Run a set of Kani harnesses; every harness is one obligation. Failed checks are replayed natively and
     classified (violation / known finding / inconclusive).
     expected_fail: {harness short name: [regex of check messages that MUST fail]} -- used for 'documented panic'
@@ -506,10 +525,18 @@ def run_kani_set(ctx, filters, bound, harness_timeout=300, features=None, jobs=N
             key = msg if re.match(r'C\d\d:', msg) else '%s:%s' % (short, msg)
             rep = reps.get((name, msg), {'reproduced': False, 'note': 'no replay', 'text': ''})
 
-            def reproduce(rep=rep, short=short, msg=msg):
-                if not rep['reproduced']:
-                    return False, None, rep.get('note', '')
-                return True, save_replay(ctx, short, rep, msg), ''
+            def reproduce(rep=rep, short=short, msg=msg, key=key):
+                if rep['reproduced']:
+                    return True, save_replay(ctx, short, rep, msg), ''
+                # harnesses that observe calls through recorder stubs cannot be replayed natively (stubs are not applied in
+                # playback): look for the property-level consequence natively on a fixed battery instead
+                for pat, fn in (fallback or DEFAULT_FALLBACKS).items():
+                    if re.search(pat, key) or re.search(pat, short):
+                        ok, path, note = fn(ctx, key)
+                        if ok:
+                            return True, path, note
+                        return False, None, rep.get('note', '') + '; native battery: ' + note
+                return False, None, rep.get('note', '')
             verdict = ctx.classify(key, 'harness %s: check "%s" fails (%s:%s)' % (short, msg, f, line), reproduce)
             ctx.record(short + ' :: ' + msg, 'K', {'violation': 'violated', 'known': 'known-finding', 'inconclusive': 'inconclusive'}[verdict],
                        key=key, time_s=h.time, bound=bound)
